@@ -86,7 +86,14 @@ def run(F, R):
             bv = BV.of(bs[0])
             s = nrm(bv.trace_local(0), {1: "self", 2: "dur"})
             exp = "ComplexTime{%s(self.wall, dur), %s(self.mono, dur)}" % (opname, opname)
-            R.check("C19-R1", "ct-%s" % opname, s == exp, s, "ComplexTime::%s builds %s, expected %s" % (opname, s, exp))
+            ok_ = s == exp
+            if not ok_ and s == "self":
+                # `mut self; self.wall += dur; self.mono += dur; self`: both components updated in place by the same operation
+                upd_ = sorted((lib.norm(t_.get("callee") or ""), nrm(bv.trace_op(t_["args"][0]), {1: "self", 2: "dur"}), nrm(bv.trace_op(t_["args"][1]), {1: "self", 2: "dur"})) for _, t_ in bv.calls())
+                want_ = sorted(("%sAssign::%s_assign" % (tr, opname), "self.%s" % f_, "dur") for f_ in ("wall", "mono"))
+                ok_ = upd_ == want_ and not [1 for (bi_, si_, p_, r_) in bv.field_writes if bi_ in bv.reach0]
+                s = "self after %s" % upd_
+            R.check("C19-R1", "ct-%s" % opname, ok_, s, "ComplexTime::%s builds %s, expected %s" % (opname, s, exp))
     for opname, tr, inner in (("add_assign", "std::ops::AddAssign", "add"), ("sub_assign", "std::ops::SubAssign", "sub")):
         for ty in (CT, PCT):
             bs = lib.bodies(c, item=opname, impl_self=ty, impl_trait=tr)
@@ -135,7 +142,19 @@ def run(F, R):
         b = lib.one(R, "C19-R1", c, fn, item=fn, impl_self=PCT)
         if b:
             s = nrm(b.trace_local(0), {1: "self"})
-            R.check("C19-R1", fn, s == "destructure(self).%d" % idx, s, "%s returns %s" % (fn, s))
+            ok_ = s == "destructure(self).%d" % idx
+            if not ok_:
+                # the same projection written as a match on the variant
+                sbi_ = first_switch(b, lambda si: si.kind == "discr" and si.ty.get("d") == PCT)
+                if sbi_ is not None:
+                    si_, arms_ = arm_values(b, sbi_)
+                    comp_ = ("wall", "mono")[idx]
+                    own_, other_ = (("Wall", "Monotonic"), ("Monotonic", "Wall"))[idx]
+                    exp_ = {own_: "Some{self@%s.0}" % own_, other_: "None{}", "Complex": "Some{self@Complex.0.%s}" % comp_}
+                    got_ = {vn_: nrm(t_, {1: "self"}) for vn_, t_ in arms_.items()}
+                    ok_ = got_ == exp_
+                    s = str(sorted(got_.items()))
+            R.check("C19-R1", fn, ok_, s, "%s returns %s" % (fn, s))
     b = lib.one(R, "C19-R1", c, "checked_to_micros_since_epoch", item="checked_to_micros_since_epoch", impl_self=PCT)
     if b:
         t = b.trace_local(0)
